@@ -138,6 +138,26 @@ theorem C12_score_moves (r : List (Nat × Nat)) (p sc : Nat) (h : r.lookup p = s
       · exact scoreOf_setScore_other _ _ _ _ hq
     · simp only [resetRank, h]; exact scoreOf_setScore_other _ _ _ _ hq
 
+/-- **The hard deadline is honoured on every result** — in every state, when a
+worker's result (of ANY kind: OK, timeout, disconnect, cancellation, other
+failure, below or at the retry cap, with or without `NoRetryMax`) is processed
+for a job of a live batch whose hard deadline has passed, the batch is ended by
+that very step: it is gone from `currentBatches` and its result channel holds a
+verdict.  In particular a `NoRetryMax` batch whose peers only fail is not
+retried beyond its hard `Timeout`. -/
+theorem C12_hard_timeout_honoured (s : State) (p : Nat) (e : Err) (w : Worker) (job : Job) (bp : Batch)
+    (hq : s.quit = false) (hoff : offering s = false)
+    (hw : findW s.workers p = some w) (ha : w.active = some job)
+    (hf : findB s.batches ((s.queries.lookup job.idx).getD 0) = some bp) (hh : bp.hardPassed = true) :
+    let s' := (step s (.result p e)).1
+    let bn := (s.queries.lookup job.idx).getD 0
+    findB s'.batches bn = none ∧ ∃ v, (bn, v) ∈ s'.verdicts := by
+  intro s' bn
+  have hs : s' = (stepResult s p e).1 := by
+    show (step s (.result p e)).1 = _
+    simp only [step, hq, hoff, Bool.false_eq_true, ↓reduceIte]
+  rw [hs]; exact result_ends_overdue_batch s p e w job bp hw ha hf hh
+
 /-- **Re-issue** — when a worker reports a failure other than cancellation
 (timeout, disconnect, any other error) for the job it holds, then, unless the
 job's batch ended in this very step (retry cap reached, hard deadline passed) or
@@ -238,6 +258,10 @@ example :
       .result 1 .ok, .accept 1, .result 1 .ok]).rank 1 = 3 ∧
     scoreOf (run init [.peer 1, .newBatch 3 true 0 false false, .accept 1, .result 1 .ok, .accept 1,
       .result 1 .disconnected]).rank 1 = 4 := by decide
+/-- `C12_hard_timeout_honoured`: unlimited retries, the deadline passes, the next FAILED result ends the batch with a timeout -/
+example :
+    (run init [.peer 1, .newBatch 1 true 0 false false, .accept 1, .result 1 .other, .accept 1,
+      .elapse 0, .result 1 .disconnected]).verdicts = [(0, .res .timeout)] := by decide
 /-- `C12_rank`: with two free workers of different score only the better one may accept -/
 example :
     let s := run init [.peer 1, .peer 2, .newBatch 1 false 2 false false, .accept 1, .result 1 .other]
